@@ -304,7 +304,7 @@ theorem literal_head (cap : Bool) (c : Cluster) (h : PlainBs c) : HeadOK (R (fmt
   cases c with
   | nil => exact headOK_nil
   | cons g gs =>
-    obtain ⟨s, hne, hb, rfl⟩ := h _ List.mem_cons_self
+    obtain ⟨s, hne, hb, _, rfl⟩ := h _ List.mem_cons_self
     simp only [List.flatMap_cons, value_ofStr]
     exact (headOK'_append_left _ (R_escape_head s hne hb)).ok
 
@@ -313,7 +313,7 @@ theorem literal_len (cap : Bool) (c : Cluster) (h : PlainBs c) : (flat c).length
   induction c with
   | nil => simp [flat]
   | cons g gs ih =>
-    obtain ⟨s, hne, hb, rfl⟩ := h _ List.mem_cons_self
+    obtain ⟨s, hne, hb, _, rfl⟩ := h _ List.mem_cons_self
     have := ih (fun x hx => h x (List.mem_cons_of_mem _ hx))
     have := R_escape_len s hb
     simp only [flat, List.flatMap_cons, List.length_append, value_ofStr] at *
@@ -325,7 +325,7 @@ theorem single_literal (c : Cluster) (h : PlainBs c) (hlen : (flat c).length = 1
   cases c with
   | nil => simp [flat] at hlen
   | cons g gs =>
-    obtain ⟨s, hne, hb, rfl⟩ := h _ List.mem_cons_self
+    obtain ⟨s, hne, hb, _, rfl⟩ := h _ List.mem_cons_self
     simp only [flat, List.flatMap_cons, value_ofStr, List.length_append] at hlen
     have hs : 1 ≤ s.length := by
       cases s with
@@ -337,7 +337,7 @@ theorem single_literal (c : Cluster) (h : PlainBs c) (hlen : (flat c).length = 1
       | [x], _, _ => exact ⟨x, rfl⟩
       | _ :: _ :: _, _, hl => simp at hl
     | cons g2 gs2 =>
-      obtain ⟨s2, hne2, _, rfl⟩ := h _ (List.mem_cons_of_mem _ List.mem_cons_self)
+      obtain ⟨s2, hne2, _, _, rfl⟩ := h _ (List.mem_cons_of_mem _ List.mem_cons_self)
       have : 1 ≤ s2.length := by
         cases s2 with
         | nil => exact absurd rfl hne2
@@ -408,7 +408,7 @@ theorem sub3_head' (cap : Bool) (fb : Bool) (e : Expr) (hwf : e.WF) (hnr : e.isR
       simp only [Expr.isSingleCodepoint, cfgPlain, Bool.and_eq_true, beq_iff_eq] at hsc
       have hlen : (flat c).length = 1 := by rw [← Expr.charCount_flat]; exact hsc.1
       obtain ⟨x, rfl⟩ := single_literal c hwf hlen
-      obtain ⟨s, hne, hb, hs⟩ := hwf _ List.mem_cons_self
+      obtain ⟨s, hne, hb, _, hs⟩ := hwf _ List.mem_cons_self
       simp only [fmtExpr]
       rw [R_fmtLiteral cap _ hwf]
       simp only [List.flatMap_cons, List.flatMap_nil, List.append_nil, value_ofStr]
